@@ -158,10 +158,22 @@ func (r *Run) Thorough() bool { return r.Tier == "thorough" }
 
 // Pick returns q for the quick tier and t for the thorough one.
 func (r *Run) Pick(q, t int) int {
+	n := q
 	if r.Thorough() {
-		return t
+		n = t
 	}
-	return q
+	// VERIF_SCALE (validation of the monitors against mutated scratch trees only, never set by a
+	// registered command): run a fraction of the tier's cases; coverage floors are off then.
+	if sc := os.Getenv("VERIF_SCALE"); sc != "" {
+		var f float64
+		if _, err := fmt.Sscan(sc, &f); err == nil && f > 0 && f < 1 {
+			r.noFloors = true
+			if n = int(float64(n) * f); n < 1 {
+				n = 1
+			}
+		}
+	}
+	return n
 }
 
 // SetRule records how cases are generated and what makes one non-trivial.
